@@ -50,9 +50,9 @@ func (g *Gen) invInstance(gi *GInv, fn *ssa.Function, heap Heap) string {
 	env := &Env{vars: map[string]EnvVal{}, lets: map[string]CExpr{}, heap: heap, old: g.entryHeap, labels: map[string]*callRecord{}}
 	env.pkg = fn.Pkg.Pkg
 	// deterministic binder names: the same heap versions must give the same text
-	saved := g.nq
-	g.nq = 900000
-	defer func() { g.nq = saved }()
+	saved, savedQ := g.nq, g.nqid
+	g.nq, g.nqid = 900000, 900000
+	defer func() { g.nq, g.nqid = saved, savedQ }()
 	return g.trBool(gi.Expr, env, &Clause{Kind: "pkginv", Name: gi.Name, File: gi.File, Line: gi.Line})
 }
 
